@@ -8,7 +8,7 @@ prop, k, src, pkg = sys.argv[1:5]
 env = dict(os.environ, GOFLAGS="-mod=mod", GOPROXY="off", GOSUMDB="off", GOTOOLCHAIN="local")
 wt = "/tmp/confirm-%s-%s" % (prop, k)
 def sh(cmd, cwd=None):
-    p = subprocess.run(cmd, shell=True, cwd=cwd, env=env, stdout=subprocess.PIPE, stderr=subprocess.STDOUT, text=True)
+    p = subprocess.run(cmd, shell=True, cwd=cwd, env=env, stdout=subprocess.PIPE, stderr=subprocess.STDOUT, text=True, errors="replace")
     return p.returncode, p.stdout
 subprocess.run(["git", "-C", "/repo", "worktree", "remove", "--force", wt], stderr=subprocess.DEVNULL)
 rc, out = sh("git -C /repo worktree add -q --detach %s HEAD" % wt)
